@@ -395,6 +395,21 @@ Definition op_shape (a b : sop) : Prop :=
   end.
 Definition no_put (h : list sop) : bool :=
   forallb (fun op => match op with OPut _ _ => false | _ => true end) h.
+(* a history that never rewrites an entry whose template is compiled (such an entry is served
+   from the old template until the cache is invalidated - by design); creating entries, asking
+   for missing ones and invalidating are all allowed *)
+Fixpoint safe_hist (st : svc) (h : list sop) : bool :=
+  match h with
+  | [] => true
+  | op :: r =>
+    (match op with
+     | OPut p _ => match assoc p (s_cache st) with Some _ => false | None => true end
+     | _ => true
+     end) && safe_hist (fst (step st op)) r
+  end.
+(* the store after a history: only the rewrites / creations matter *)
+Definition store_after (be : list (str * list tpiece)) (h : list sop) : list (str * list tpiece) :=
+  fold_left (fun b op => match op with OPut p c => (p, c) :: b | _ => b end) h be.
 (* the template a request for [p] is rendered from *)
 Definition in_effect (st : svc) (p : str) : option (list tpiece) :=
   match assoc p (s_cache st) with Some t => Some t | None => assoc p (s_backend st) end.
@@ -410,8 +425,11 @@ Inductive c20_case :=
 (* a sequence of operations on ONE Service over a backend that starts as [backend]:
    [observed] = what each operation returned (None: failed / not a request),
    [cold] = what the same request returned alone on a fresh Service over the backend as it
-   was at that moment *)
-| CSeq (backend : list (str * list tpiece)) (ops : list sop) (observed cold : list (option str)).
+   was at that moment,
+   [raw] = whether the UNPROCESSED lookup (GetComponentConfiguration) of the request's path
+   succeeded on the same Service just before the request (false for the other operations) *)
+| CSeq (backend : list (str * list tpiece)) (ops : list sop) (observed cold : list (option str))
+       (raw : list bool).
 
 (* insertion sort of pairs by key, to compare with Go's sorted map dump *)
 Fixpoint str_leb (a b : str) : bool :=
@@ -439,6 +457,15 @@ Fixpoint pure_outs (be : list (str * list tpiece)) (ops : list sop) : list (opti
   | OPut p c :: r => None :: pure_outs ((p, c) :: be) r
   end.
 
+(* does the path of each request have an entry at that moment *)
+Fixpoint exist_outs (be : list (str * list tpiece)) (ops : list sop) : list bool :=
+  match ops with
+  | [] => []
+  | OReq p _ :: r => (match assoc p be with Some _ => true | None => false end) :: exist_outs be r
+  | OInv :: r => false :: exist_outs be r
+  | OPut p c :: r => false :: exist_outs ((p, c) :: be) r
+  end.
+
 Definition corr20 (c : c20_case) : bool :=
   match c with
   | CParse s o => option_eqb query_eqb (parse_query s) o
@@ -450,9 +477,10 @@ Definition corr20 (c : c20_case) : bool :=
                 | None => None end) o
   | CResolve q ex o _ => option_eqb query_eqb (resolve (fun p => mem_str p ex) q) o
   | CRender vars t o => option_eqb str_eqb (render vars t) o
-  | CSeq be ops o cold =>
+  | CSeq be ops o cold raw =>
     list_eqb (option_eqb str_eqb) (snd (run (fresh be) ops)) o &&
-    list_eqb (option_eqb str_eqb) (pure_outs be ops) cold
+    list_eqb (option_eqb str_eqb) (pure_outs be ops) cold &&
+    list_eqb Bool.eqb (exist_outs be ops) raw
   end.
 
 (* monitor: the property evaluated on what the implementation did (no model function of
@@ -462,7 +490,11 @@ Definition corr20 (c : c20_case) : bool :=
    5 resolved entry could not be fetched; 6 accepted query parameters do not spell the input;
    7 the payload of a request on a warm Service differs from the payload of the same request
    alone on a fresh Service although the entry did not change since its template was compiled
-   (something cached across requests reached the payload). *)
+   (something cached across requests reached the payload);
+   8 a processed lookup succeeded although the unprocessed lookup of the same path fails (there
+   is no entry: nothing to template);
+   9 as 7, for an entry that was created after a processed lookup of its path had been made
+   while it was missing (the outcome of the earlier lookup was remembered). *)
 Fixpoint first_existing (ex : str -> bool) (l : list query) : option query :=
   match l with
   | [] => None
@@ -470,16 +502,31 @@ Fixpoint first_existing (ex : str -> bool) (l : list query) : option query :=
   end.
 
 (* bookkeeping of the template cache discipline only (no rendering): [cached] = entries asked
-   for since the last invalidation, [stale] = those of them that were rewritten afterwards and are
-   served from the old template by design *)
-Fixpoint seq_leak (cached stale : list str) (ops : list sop) (o cold : list (option str)) : bool :=
-  match ops, o, cold with
-  | OReq p _ :: r, w :: o', c :: cold' =>
-    (negb (mem_str p stale) && negb (option_eqb str_eqb w c)) || seq_leak (p :: cached) stale r o' cold'
-  | OInv :: r, _ :: o', _ :: cold' => seq_leak [] [] r o' cold'
-  | OPut p _ :: r, _ :: o', _ :: cold' =>
-    seq_leak cached (if mem_str p cached then p :: stale else stale) r o' cold'
-  | _, _, _ => false
+   for - while they existed - since the last invalidation, [stale] = those of them that were
+   rewritten afterwards and are served from the old template by design, [missed] = paths asked for
+   while they had no entry.  First failing request decides the code. *)
+Fixpoint seq_mon (cached stale missed : list str) (ops : list sop) (o cold : list (option str))
+         (raw : list bool) : N :=
+  match ops, o, cold, raw with
+  | OReq p _ :: r, w :: o', c :: cold', ex :: raw' =>
+    if negb ex && (match w with Some _ => true | None => false end) then 8
+    else if negb (mem_str p stale) && negb (option_eqb str_eqb w c)
+         then (if mem_str p missed then 9 else 7)
+    else seq_mon (if ex then p :: cached else cached) stale (if ex then missed else p :: missed) r o' cold' raw'
+  | OInv :: r, _ :: o', _ :: cold', _ :: raw' => seq_mon [] [] [] r o' cold' raw'
+  | OPut p _ :: r, _ :: o', _ :: cold', _ :: raw' =>
+    seq_mon cached (if mem_str p cached then p :: stale else stale) missed r o' cold' raw'
+  | _, _, _, _ => 0
+  end.
+
+(* an entry is asked for while missing, then created, then asked for again *)
+Fixpoint late_pattern (missed created : list str) (ops : list sop) (raw : list bool) : bool :=
+  match ops, raw with
+  | OReq p _ :: r, ex :: raw' =>
+    mem_str p created || late_pattern (if ex then missed else p :: missed) created r raw'
+  | OInv :: r, _ :: raw' => late_pattern [] [] r raw'
+  | OPut p _ :: r, _ :: raw' => late_pattern missed (if mem_str p missed then p :: created else created) r raw'
+  | _, _ => false
   end.
 
 Definition mon20 (c : c20_case) : N :=
@@ -504,7 +551,7 @@ Definition mon20 (c : c20_case) : N :=
     else if negb (forallb (fun p => mem_str p items) printed) then 6
     else if negb (forallb (fun it => is_process it || mem_str it printed) items) then 6
     else 0
-  | CSeq _ ops o cold => if seq_leak [] [] ops o cold then 7 else 0
+  | CSeq _ ops o cold raw => seq_mon [] [] [] ops o cold raw
   | _ => 0
   end.
 
@@ -522,7 +569,8 @@ Definition tag20 (c : c20_case) : N :=
        + (if ex (print_query (with_any_role q)) then 4 else 0)
        + (if ex (print_query (with_any_rt (with_any_role q))) then 8 else 0)
   | CRender _ t _ => if existsb (fun p => match p with TExp _ => true | _ => false end) t then 35 else 30
-  | CSeq _ ops _ _ =>
+  | CSeq _ ops _ _ raw =>
+    if late_pattern [] [] ops raw then 36 else
     31 + (if existsb (fun op => match op with OInv => true | _ => false end) ops then 1 else 0)
        + (if existsb (fun op => match op with OPut _ _ => true | _ => false end) ops then 2 else 0)
   end.
